@@ -134,6 +134,12 @@ func execGE(_ *config, op string) string {
 			tol, r := f[0], f[1]
 			p := geo.NewProcessor(geo.Tolerance(tol), geo.Radius(r))
 			p2 := geo.NewProcessor(geo.Tolerance(2*tol), geo.Radius(r))
+			if math.Float64bits(f[2])&1 == 1 {
+				// a used processor: it has answered for a much longer line from the same start point
+				// and for another position before; the answers below must not depend on that
+				p.OnLine(f[2]+0.001, f[3], f[4], f[5], f[4]+(f[6]-f[4])*40, f[5]+(f[7]-f[5])*40)
+				p.OnLine(f[2], f[3], f[4], f[5], f[4]+(f[6]-f[4])*40, f[5]+(f[7]-f[5])*40)
+			}
 			b := p.OnLine(f[2], f[3], f[4], f[5], f[6], f[7])
 			bs := p.OnLine(f[2], f[3], f[6], f[7], f[4], f[5])
 			b2 := p2.OnLine(f[2], f[3], f[4], f[5], f[6], f[7])
@@ -149,10 +155,16 @@ func execGE(_ *config, op string) string {
 				opts2 = append(opts2, geo.FastDistance())
 			}
 			p, p2 := geo.NewProcessor(opts...), geo.NewProcessor(opts2...)
+			if math.Float64bits(f[1])&1 == 1 {
+				p.Distance(f[1], f[2], f[1]+0.01, f[2]-0.02) // a used processor
+			}
 			out = hexFloats(p.Distance(f[1], f[2], f[3], f[4]), p.Distance(f[3], f[4], f[1], f[2]), p2.Distance(f[1], f[2], f[3], f[4]))
 		case "dtl":
 			f := parseFloats(toks[1:])
 			p := geo.NewProcessor(geo.Radius(f[0]))
+			if math.Float64bits(f[1])&1 == 1 {
+				p.DistanceToLine(f[1]+0.001, f[2], f[3], f[4], f[3]+(f[5]-f[3])*30, f[4]+(f[6]-f[4])*30) // a used processor
+			}
 			out = hexFloats(p.DistanceToLine(f[1], f[2], f[3], f[4], f[5], f[6]))
 		case "meet":
 			f := parseFloats(toks[1:])
